@@ -237,7 +237,7 @@ def sequential_reference(hid):
 PLAN = {
     "quick": [(h, "coarse", 2) for h in HARNESSES] + [(h, "shared", 1) for h in HARNESSES if h != "H7x"],
     "thorough": [(h, "coarse", 3) for h in HARNESSES] + [(h, "line", 1) for h in HARNESSES]
-                + [(h, "shared", 2) for h in ("H1", "H2", "H4", "H5g", "H5s", "H8a", "H9", "H10", "H11", "H12", "H13", "H7", "H3", "H6", "H8b")],
+                + [(h, "shared", 2) for h in ("H1", "H2", "H9", "H4", "H11", "H13")],
 }
 NSPLIT = {"coarse": 4, "shared": 16, "line": 16}
 
